@@ -1,7 +1,7 @@
 (* C10 - only a fresh, well-formed chrony report counts as synchronised.
    Model: Daemon/Bound.v classify leap interval age, age = None when the reference time is in the
    future, else Some (whole seconds, nanoseconds) elapsed; T = stale_threshold interval. *)
-From Coq Require Import ZArith Reals.
+From Coq Require Import ZArith Reals Lia Lra.
 From Flocq Require Import Core.
 From CB Require Import Mach F64 ChronyFloat ChronyFloatProofs Client Bound BoundProofs.
 Open Scope Z_scope.
@@ -32,3 +32,25 @@ Example C10_example :   (* interval 4.0 s (coef 2^23, exponent field 4): thresho
   classify 1 w (Some (32, 1)) = FreeRunning /\ classify 3 w (Some (0, 0)) = FreeRunning /\
   classify 4 w (Some (0, 0)) = Unknown /\ classify 0 w None = Unknown.
 Proof. vm_compute. repeat split. Qed.
+
+(* a negative update interval (chronyd can report one after a backwards step of the clock): eight
+   intervals are negative, the threshold saturates to 0 s, and only an age of exactly zero is
+   not "older than eight intervals" *)
+Theorem C10_negative_interval_is_always_stale : forall w leap s n, 0 <= w < 4294967296 -> 0 <= leap ->
+  (cf_value w < 0)%R -> classify leap w (Some (s, n)) = Synchronized -> s < 0 \/ (s = 0 /\ n <= 0).
+Proof.
+  intros w leap s n Hw Hl Hneg H.
+  apply C10_synchronized_iff in H; [|exact Hl]. destruct H as (_ & s' & n' & E & H). inversion E; subst s' n'.
+  assert (T : stale_threshold w = 0).
+  { rewrite C10_threshold by exact Hw.
+    assert (Ztrunc (8 * cf_value w) <= 0).
+    { rewrite Raux.Ztrunc_ceil by (lra). apply Raux.Zceil_glb. simpl. lra. }
+    unfold u64_max. lia. }
+  rewrite T in H. exact H.
+Qed.
+
+Example C10_negative_interval_example :   (* interval -4.0 s (coefficient -2^23, exponent field 4) *)
+  let w := 4 * 33554432 + (33554432 - 8388608) in
+  stale_threshold w = 0 /\ classify 0 w (Some (0, 1)) = FreeRunning /\ classify 1 w (Some (86400, 0)) = FreeRunning /\
+  classify 0 w (Some (0, 0)) = Synchronized.
+Proof. vm_compute. repeat split; reflexivity. Qed.
